@@ -55,6 +55,22 @@ type File struct {
 	Items  []Item `json:"items"`
 	Layout Layout `json:"layout"`
 	Big    bool   `json:"big,omitempty"` // generated to exceed the readers' buffer sizes
+	// ConfHeaders is the provider's config option `headers` (docs/eng/providers.md: "You can define common headers using
+	// special config option `headers`. Headers in ammo file have priority. Format: list of strings", each "[Name: value]").
+	// Unique names. Empty unless GenOpts.ConfigHeaders asked for it.
+	ConfHeaders []KV `json:"config_headers,omitempty"`
+}
+
+// HeaderLine renders a header the way uri / uripost files and the `headers` option spell it: "[Name: value]".
+func HeaderLine(h KV) string { return fmt.Sprintf("[%s: %s]", h.K, h.V) }
+
+// ConfigHeaderLines is the value of the provider's `headers` option for this file (nil when it has none).
+func (f File) ConfigHeaderLines() []any {
+	var out []any
+	for _, h := range f.ConfHeaders {
+		out = append(out, HeaderLine(h))
+	}
+	return out
 }
 
 // Want is what the provider must deliver for one entry.
@@ -103,6 +119,19 @@ func (f File) Expected() []Want {
 		}
 		for _, h := range e.Headers {
 			w.Headers[canon(h.K)] = h.V
+		}
+		// the provider's `headers` option: defaults, "Headers in ammo file have priority"
+		for _, h := range f.ConfHeaders {
+			k := canon(h.K)
+			if k == "Host" {
+				if w.Host == "" {
+					w.Host = h.V
+				}
+				continue
+			}
+			if _, ok := w.Headers[k]; !ok {
+				w.Headers[k] = h.V
+			}
 		}
 		if len(w.Body) == 0 {
 			w.Body = nil
@@ -455,6 +484,86 @@ type GenOpts struct {
 	// AllowBig: one file in eight is made larger than the readers' buffers (4 KiB bufio, 64 KiB scanner
 	// tokens are NOT exceeded per line): bodies blown up to 1-20 KiB by repetition, uri files to 60-200 lines.
 	AllowBig bool
+	// BracketValues: one header value in three (in-file "[Name: value]" directives, the `headers` option, the entries' own
+	// headers) is drawn from GenBracketValue - brackets and colons anywhere, also at the very ends of the value
+	// (`ids[]`, `$.items[0]`, `[1, [2, 3]]`, `a:b:c`) -, and one Host in three is a bracketed IPv6 literal (`[::1]`,
+	// `[2001:db8::1]:8080`). A "[Name: value]" line is the name up to the first colon and the value between that colon and
+	// the line's closing bracket (surrounding blanks trimmed), so such a value must arrive exactly as written.
+	BracketValues bool
+	// ConfigHeaders: one file in two comes with 1-3 default headers for the provider's `headers` option
+	// (File.ConfHeaders; unique names from the same pool as directives and entry headers, so that the file's
+	// headers often compete with them; Host among them).
+	ConfigHeaders bool
+}
+
+// genHeaderValueFor / genHost under the options
+func (o GenOpts) headerValueFor(t *rapid.T, name string) string {
+	if o.BracketValues && rapid.IntRange(0, 2).Draw(t, "hvBracket") == 0 {
+		return GenBracketValue(t)
+	}
+	return genHeaderValueFor(t, name)
+}
+
+func (o GenOpts) host(t *rapid.T) string {
+	if o.BracketValues && rapid.IntRange(0, 2).Draw(t, "hostV6") == 0 {
+		h := "[" + rapid.SampledFrom([]string{"::1", "::", "fe80::1", "2001:db8::" + strings.ToLower(genHex(t, "v6tail"))}).Draw(t, "v6") + "]"
+		return h + rapid.SampledFrom([]string{"", "", ":8080", ":80"}).Draw(t, "v6port")
+	}
+	return genHost(t)
+}
+
+func genHex(t *rapid.T, label string) string {
+	const hex = "0123456789abcdef"
+	n := rapid.IntRange(1, 4).Draw(t, label+"Len")
+	var sb strings.Builder
+	for i := 0; i < n; i++ {
+		sb.WriteByte(hex[rapid.IntRange(0, len(hex)-1).Draw(t, label)])
+	}
+	return sb.String()
+}
+
+var bracketAtoms = []string{"[", "]", "[]", "[", "]", ":", "::", ": ", " ", ", ", "[0]", "$.", "{", "}", "\"", "=", "]]", "[[", ";", "."}
+
+// GenBracketValue draws a non-empty header value of visible ASCII with inner single blanks, rich in '[', ']' and ':',
+// whose ends are not blank: idiomatic shapes (array-style parameter names, JSONPath, JSON arrays / objects, host:port and
+// IPv6 literals, times) and free compositions, with runs of brackets at the very ends in about half of the draws.
+func GenBracketValue(t *rapid.T) string {
+	var v string
+	switch rapid.IntRange(0, 7).Draw(t, "bvKind") {
+	case 0:
+		v = genToken(t, "bv", 1, 6) + strings.Repeat("[]", rapid.IntRange(1, 2).Draw(t, "bvDims"))
+	case 1:
+		v = "$." + genToken(t, "bv", 1, 6) + fmt.Sprintf("[%d]", rapid.IntRange(0, 12).Draw(t, "bvIdx"))
+	case 2:
+		v = fmt.Sprintf("[%d, [%d, %d]]", rapid.IntRange(0, 9).Draw(t, "bvA"), rapid.IntRange(0, 9).Draw(t, "bvB"), rapid.IntRange(0, 99).Draw(t, "bvC"))
+	case 3:
+		v = `{"` + genToken(t, "bv", 1, 4) + `": [` + genToken(t, "bv2", 1, 3) + rapid.SampledFrom([]string{"]}", "]", "], \"b\": 1}"}).Draw(t, "bvTail")
+	case 4:
+		v = genToken(t, "bv", 1, 5) + ":" + genToken(t, "bv2", 1, 5) + rapid.SampledFrom([]string{"", ":" + "x", ": y", "::"}).Draw(t, "bvColons")
+	default:
+		n := rapid.IntRange(1, 6).Draw(t, "bvAtoms")
+		var sb strings.Builder
+		for i := 0; i < n; i++ {
+			if rapid.IntRange(0, 2).Draw(t, "bvTok") == 0 {
+				sb.WriteString(genToken(t, "bv", 1, 4))
+			} else {
+				sb.WriteString(rapid.SampledFrom(bracketAtoms).Draw(t, "bvAtom"))
+			}
+		}
+		v = strings.TrimSpace(sb.String())
+	}
+	switch rapid.IntRange(0, 5).Draw(t, "bvEnds") {
+	case 0:
+		v += strings.Repeat("]", rapid.IntRange(1, 3).Draw(t, "bvClose"))
+	case 1:
+		v = strings.Repeat("[", rapid.IntRange(1, 2).Draw(t, "bvOpen")) + v
+	case 2:
+		v = "[" + v + "]"
+	}
+	if v == "" {
+		v = "[]"
+	}
+	return v
 }
 
 // Gen draws a file in the given format.
@@ -472,9 +581,9 @@ func Gen(t *rapid.T, format string, o GenOpts) File {
 		if dirs {
 			for rapid.IntRange(0, 3).Draw(t, "dirHere") == 0 {
 				k := rapid.SampledFrom(append([]string{"Host"}, headerNames...)).Draw(t, "dirKey")
-				v := genHeaderValueFor(t, k)
+				v := o.headerValueFor(t, k)
 				if k == "Host" {
-					v = genHost(t)
+					v = o.host(t)
 				}
 				f.Items = append(f.Items, Item{Dir: &KV{K: k, V: v}})
 			}
@@ -494,16 +603,16 @@ func Gen(t *rapid.T, format string, o GenOpts) File {
 			if e.Method != "GET" && e.Method != "HEAD" {
 				e.Body = GenBody(t, true)
 			}
-			e.Host = genHost(t) // HTTP/1.1 request text needs Host
-			e.Headers = genHeaders(t)
+			e.Host = o.host(t) // HTTP/1.1 request text needs Host
+			e.Headers = genHeaders(t, o)
 		case "jsonline":
 			e.Method = rapid.SampledFrom(methodsAny).Draw(t, "method")
 			e.Tag = GenTag(t, o.Tags, true)
 			e.Body = GenBody(t, false)
 			if rapid.Bool().Draw(t, "hasHost") {
-				e.Host = genHost(t)
+				e.Host = o.host(t)
 			}
-			e.Headers = genHeaders(t)
+			e.Headers = genHeaders(t, o)
 		}
 		f.Items = append(f.Items, Item{Entry: &e})
 	}
@@ -549,10 +658,26 @@ func Gen(t *rapid.T, format string, o GenOpts) File {
 	if !o.NoLayout {
 		f.Layout = genLayout(t, format, len(f.Items))
 	}
+	if o.ConfigHeaders && rapid.Bool().Draw(t, "confHeaders") {
+		n := rapid.IntRange(1, 3).Draw(t, "confHeadersN")
+		seen := map[string]bool{}
+		for i := 0; i < n; i++ {
+			k := rapid.SampledFrom(append([]string{"Host", "X-Default"}, headerNames...)).Draw(t, "confKey")
+			if seen[canon(k)] {
+				continue
+			}
+			seen[canon(k)] = true
+			v := o.headerValueFor(t, k)
+			if k == "Host" {
+				v = o.host(t)
+			}
+			f.ConfHeaders = append(f.ConfHeaders, KV{K: k, V: v})
+		}
+	}
 	return f
 }
 
-func genHeaders(t *rapid.T) []KV {
+func genHeaders(t *rapid.T, o GenOpts) []KV {
 	n := rapid.IntRange(0, 4).Draw(t, "headers")
 	seen := map[string]bool{}
 	var out []KV
@@ -562,7 +687,7 @@ func genHeaders(t *rapid.T) []KV {
 			continue
 		}
 		seen[canon(k)] = true
-		out = append(out, KV{K: k, V: genHeaderValueFor(t, k)})
+		out = append(out, KV{K: k, V: o.headerValueFor(t, k)})
 	}
 	return out
 }
